@@ -102,6 +102,10 @@ def conditions(tier):
     for shape in [(1, 1), (2, 1), (1, 0)]:
         out.append(_mk("hash_based", shape, 1, "ACD", True))
     out.append(_mk("hash_based", (1, 0), 3, "AC", True))
+    # equal-length collections whose closest pairs need an insertion AND a deletion ('ACA' / 'CAC': lev 2, hamming 3):
+    # every shortest path runs through strings shorter / longer than anything stored
+    out.append(_mk("hash_based", (2, 2), 2, "AC", True))
+    out.append(_mk("hash_based", (3, 3), 2, "AC", True, budget=900))
     out.append(_mk("hash_based", (1, 0), 1, hc.AMINO, True, budget=300))
     # kdtree: letters straddling / sharing composition bins
     for letters in ("ACY", "LMN"):
@@ -118,7 +122,8 @@ def conditions(tier):
     if tier == "thorough":
         out.append(_mk("hash_based", (2, 2), 1, "ACD", True, budget=2400))
         out.append(_mk("hash_based", (3, 2), 1, "AC", True, budget=2400))
-        out.append(_mk("hash_based", (2, 2), 2, "AC", True, budget=2400))
+        out.append(_mk("hash_based", (3, 3), 3, "AC", True, budget=2400))
+        out.append(_mk("hash_based", (3, 3, 3), 2, "AC", True, budget=2400))
         out.append(_mk("hash_based", (2, 1), 3, "AC", True, budget=2400))
         out.append(_mk("hash_based", (2, 2, 1), 1, "AC", True, budget=2400))
         out.append(_mk("hash_based", (1, 1), 1, hc.AMINO, True, budget=2400))
